@@ -96,9 +96,12 @@ def shard(shard_no, nshards, seed, tier, extra):
         elif r < 0.58:
             code, f = progs.every_producer(rng)
             feats = {"every-producer"}
-        elif r < 0.62:
+        elif r < 0.6:
             code, f = progs.typed_widths(rng)
             feats = {"typed-widths"}
+        elif r < 0.62:
+            code, f = progs.cyclic_types(rng)
+            feats = {"cyclic-types"}
         elif r < 0.7:
             code, feats = progs.mask_shift(rng)
             feats = {"mask-shift"} | feats
